@@ -15,6 +15,8 @@
 (*   FaultReported   a fault that struck makes open return IoError         *)
 (*   Progress        every replay iteration that does not terminate        *)
 (*                   strictly advances (file, block, cursor)               *)
+(* The GC pass at the end of open is part of the algorithm: its roll-over   *)
+(* opens or creates a file, and that call can fail like any other.         *)
 (* ReplaySkipsIoErrors = TRUE models the code before fix 3c4a4a0 (D1):     *)
 (* TLC then finds the lasso (persistent fault) and the unreported          *)
 (* transient fault.                                                        *)
@@ -25,6 +27,7 @@ CONSTANTS NFiles,            \* number of WAL files listed (>= 1)
           NBlocks,           \* blocks per full file
           BlockSize, HeaderLen,
           ReplaySkipsIoErrors,
+          RecoveryGcErrorsIgnored,  \* TRUE models seeded change M50 (self-test)
           FaultModes         \* subset of {"none", "once", "forever"}
 
 (* --algorithm Recovery
@@ -154,7 +157,20 @@ CheckProgress:
   goto Replay;
 IntoWriter:
   io_call(ok);                      \* the seek
-  if ~ok then result := "IoError"; else result := "Ok"; end if;
+  if ~ok then result := "IoError"; goto Done; end if;
+RecoveryGc:
+  \* the GC pass that ends open_with_prefs (run_gc_if_necessary): nothing to collect, or position
+  \* entries are written first - which fit in the current file, or make the writer roll over into
+  \* the next file, which recovery then has to OPEN (it exists: a crash after its creation) or to
+  \* CREATE; both are file opens that can fail during recovery.
+  either result := "Ok"; goto Done;             \* no unused file / entries fit
+  or     skip;                                  \* roll-over
+  end either;
+GcOpenOrCreate:
+  io_call(ok);
+  if ~ok /\ ~RecoveryGcErrorsIgnored then result := "IoError";
+  else result := "Ok";                          \* (ignored = seeded change M50)
+  end if;
 end process;
 end algorithm; *)
 \* BEGIN TRANSLATION
@@ -460,16 +476,48 @@ IntoWriter == /\ pc["reader"] = "IntoWriter"
                                     /\ UNCHANGED << faultArmed, struck >>
               /\ IF ~ok'
                     THEN /\ result' = "IoError"
-                    ELSE /\ result' = "Ok"
-              /\ pc' = [pc EXCEPT !["reader"] = "Done"]
+                         /\ pc' = [pc EXCEPT !["reader"] = "Done"]
+                    ELSE /\ pc' = [pc EXCEPT !["reader"] = "RecoveryGc"]
+                         /\ UNCHANGED result
               /\ UNCHANGED << nblocks, faultMode, fi, blk, cur, corrupt, 
                               within, frameRes, nbRes, cand, iters, lastPos, 
                               progressOk, hdr, len, ftype >>
 
+RecoveryGc == /\ pc["reader"] = "RecoveryGc"
+              /\ \/ /\ result' = "Ok"
+                    /\ pc' = [pc EXCEPT !["reader"] = "Done"]
+                 \/ /\ TRUE
+                    /\ pc' = [pc EXCEPT !["reader"] = "GcOpenOrCreate"]
+                    /\ UNCHANGED result
+              /\ UNCHANGED << nblocks, faultMode, faultArmed, struck, fi, blk, 
+                              cur, corrupt, within, frameRes, nbRes, cand, 
+                              iters, lastPos, progressOk, ok, hdr, len, ftype >>
+
+GcOpenOrCreate == /\ pc["reader"] = "GcOpenOrCreate"
+                  /\ IF faultMode = "forever" /\ faultArmed
+                        THEN /\ ok' = FALSE
+                             /\ struck' = TRUE
+                             /\ UNCHANGED faultArmed
+                        ELSE /\ IF faultMode \in {"once", "forever"} /\ ~faultArmed
+                                   THEN /\ \/ /\ ok' = TRUE
+                                              /\ UNCHANGED <<faultArmed, struck>>
+                                           \/ /\ ok' = FALSE
+                                              /\ faultArmed' = TRUE
+                                              /\ struck' = TRUE
+                                   ELSE /\ ok' = TRUE
+                                        /\ UNCHANGED << faultArmed, struck >>
+                  /\ IF ~ok' /\ ~RecoveryGcErrorsIgnored
+                        THEN /\ result' = "IoError"
+                        ELSE /\ result' = "Ok"
+                  /\ pc' = [pc EXCEPT !["reader"] = "Done"]
+                  /\ UNCHANGED << nblocks, faultMode, fi, blk, cur, corrupt, 
+                                  within, frameRes, nbRes, cand, iters, 
+                                  lastPos, progressOk, hdr, len, ftype >>
+
 reader == ListDir \/ OpenFirst \/ ReadFirst \/ Replay \/ GoNext
              \/ ReadFrame \/ NextBlockSameFile \/ NextFileLoop \/ OpenNext
              \/ ReadNext \/ Header \/ FrameDone \/ CheckProgress
-             \/ IntoWriter
+             \/ IntoWriter \/ RecoveryGc \/ GcOpenOrCreate
 
 (* Allow infinite stuttering to prevent deadlock on termination. *)
 Terminating == /\ \A self \in ProcSet: pc[self] = "Done"
